@@ -50,6 +50,7 @@ def scenarios(ctx):
                                                          "qualified": True}, "steps": steps})
                 k += 1
     out += RC.byte_quota_scenarios("c03", {})
+    out += RC.fast_rate_scenarios("c03", rng, {})
     for s in out:
         if s["cfg"].get("extract") in ("header", "ip"):
             for st in s["steps"]:
